@@ -65,6 +65,18 @@ func (s *Session) call(fr *Frame, cc *ssa.CallCommon, st *State, instr *ssa.Call
 	if fr.top && os.Getenv("GOVC_VAC") != "" {
 		s.addObl(&Obligation{Name: fmt.Sprintf("%s/dbgvac@%s@b%d", fr.oblPfx, calleeName(cc), fr.curBlock.Index), Kind: "vacuity", Func: fr.oblPfx, Src: "debug reachability", Guard: TTrue, Formula: Not(st.Reach)})
 	}
+	if fr.top && fr.curBlock != nil && !fr.vacDone[fr.curBlock.Index] && instr != nil && s.needsReachCheck(fr, cc, instr) {
+		// guard against vacuous proofs: call sites must be reachable under the accumulated assumptions
+		// (one check per basic block, placed before any assertion of this call is assumed)
+		if fr.vacDone == nil {
+			fr.vacDone = map[int]bool{}
+		}
+		fr.vacDone[fr.curBlock.Index] = true
+		if n := calleeName(cc); n != "" {
+			s.ensureCallSites(fr)
+			s.addObl(&Obligation{Name: fmt.Sprintf("%s/reach@%s#%d/vacuity", fr.oblPfx, n, fr.callSites[instr]), Kind: "vacuity", Func: fr.oblPfx, Src: "call site reachable (assumptions consistent)", Guard: TTrue, Formula: Not(st.Reach)})
+		}
+	}
 	if fr.top && fr.contract != nil && len(fr.contract.Interf) > 0 {
 		s.interfere(fr, cc, st, instr)
 	}
@@ -420,14 +432,6 @@ func (s *Session) applyContract(fr *Frame, c *Contract, fn *ssa.Function, sig *t
 	ord := fr.callOrd[short]
 	pkgT := s.eng.typesPkg(c.Pkg)
 	se := &SpecEnv{sess: s, pkg: pkgT, vars: env, st: st, old: st}
-	if fr.top && fr.curBlock != nil && !fr.vacDone[fr.curBlock.Index] && (len(c.Requires) > 0 || len(c.Ensures) > 0) {
-		// guard against vacuous proofs: the call site must be reachable under the accumulated assumptions
-		if fr.vacDone == nil {
-			fr.vacDone = map[int]bool{}
-		}
-		fr.vacDone[fr.curBlock.Index] = true
-		s.addObl(&Obligation{Name: fmt.Sprintf("%s/reach@%s#%d/vacuity", fr.oblPfx, short, ord), Kind: "vacuity", Func: fr.oblPfx, Src: "call site reachable (assumptions consistent)", Guard: TTrue, Formula: Not(st.Reach)})
-	}
 	for i, rq := range c.Requires {
 		subs := splitClause(rq)
 		for _, sub := range subs {
@@ -439,6 +443,50 @@ func (s *Session) applyContract(fr *Frame, c *Contract, fn *ssa.Function, sig *t
 	old := st.clone()
 	// havoc the frame
 	s.havocItems(se, c.Modifies, st)
+	// option callback: the callee may invoke the closures it is given any number of times; their effects
+	// (computed by scanning the closure bodies) are forgotten. Nothing else is touched by the callee.
+	if c.Options["callback"] != "" {
+		for _, a := range args {
+			var cf *ssa.Function
+			if a.Clo != nil {
+				cf = a.Clo.Fn
+			} else if a.Fn != nil {
+				cf = a.Fn
+			}
+			if cf == nil {
+				continue
+			}
+			mods := map[string]string{}
+			savedReal, savedRoots, savedBlocks := s.scanReal, s.scanRoots, s.scanBlocks
+			s.scanReal, s.scanRoots, s.scanBlocks = map[string]bool{}, map[string][]T{}, map[*ssa.BasicBlock]bool{}
+			all := false
+			for _, b := range cf.Blocks {
+				if s.scanInstrs(nil, b.Instrs, mods, map[*ssa.Function]bool{cf: true}, 1) {
+					all = true
+				}
+			}
+			s.scanReal, s.scanRoots, s.scanBlocks = savedReal, savedRoots, savedBlocks
+			if all {
+				s.havocAll(st)
+				continue
+			}
+			names := make([]string, 0, len(mods))
+			for n := range mods {
+				names = append(names, n)
+			}
+			sort.Strings(names)
+			for _, n := range names {
+				sortN := mods[n]
+				if sortN == "?" {
+					continue
+				}
+				s.havocHeap(st, n, sortN)
+			}
+			nt := s.fresh("top", SInt)
+			s.assume(Ge(nt, st.Top))
+			st.Top = nt
+		}
+	}
 	// ghost events inside the callee: the clock and the per-event positions only move forward
 	if fn != nil && s.eng.mayEvent(fn, map[*ssa.Function]bool{}) {
 		clk0 := s.ghostGet(st, "evclock")
@@ -652,6 +700,7 @@ func (s *Session) modScan(fr *Frame, blocks map[*ssa.BasicBlock]bool) (map[strin
 	mods := map[string]string{}
 	s.scanReal = map[string]bool{}
 	s.scanRoots = map[string][]T{}
+	s.scanEvents = map[string]bool{}
 	s.scanBlocks = blocks
 	visited := map[*ssa.Function]bool{}
 	all := false
@@ -1012,6 +1061,17 @@ func (s *Session) scanContractMods(c *Contract, fn *ssa.Function, sig *types.Sig
 		for _, n := range []string{"evclock", "evlast", "evres"} {
 			mods["X:"+n] = arrSort(SInt)
 		}
+		if s.scanEvents != nil {
+			s.scanEvents[c.Options["event"]] = true
+		}
+	}
+	if fn != nil && s.scanEvents != nil && s.eng.mayEvent(fn, map[*ssa.Function]bool{}) {
+		for _, n := range []string{"evclock", "evlast", "evres"} {
+			mods["X:"+n] = arrSort(SInt)
+		}
+		for n := range s.eng.eventNames(fn, map[*ssa.Function]bool{}) {
+			s.scanEvents[n] = true
+		}
 	}
 	for _, it := range c.Modifies {
 		if it == "*" {
@@ -1229,7 +1289,6 @@ func (s *Session) callSiteAsserts(fr *Frame, cc *ssa.CallCommon, st *State, inst
 			idx = i
 		}
 	}
-	s.addObl(&Obligation{Name: fmt.Sprintf("%s/%s@%s#%d/vacuity", fr.oblPfx, phase, name, k), Kind: "vacuity", Func: fr.oblPfx, Src: "call site reachable (assumptions consistent)", Guard: TTrue, Formula: Not(st.Reach)})
 	for i, cl := range clauses {
 		subs := splitClause(cl)
 		for _, sub := range subs {
@@ -1428,4 +1487,87 @@ func (s *Session) loopInvariantRoot(fr *Frame, addr ssa.Value) *T {
 		return &r
 	}
 	return nil
+}
+
+// needsReachCheck: reachability (non-vacuity) is checked at call sites that carry proof obligations:
+// calls of functions under contract and calls with `at` assertions.
+func (s *Session) needsReachCheck(fr *Frame, cc *ssa.CallCommon, instr *ssa.Call) bool {
+	if fr.contract != nil && len(fr.contract.Ats) > 0 {
+		s.ensureCallSites(fr)
+		k := fmt.Sprintf("%s#%d", calleeName(cc), fr.callSites[instr])
+		if len(fr.contract.Ats[k]) > 0 || len(fr.contract.Ats[k+"!after"]) > 0 {
+			return true
+		}
+	}
+	var c *Contract
+	if cc.IsInvoke() {
+		if named, ok := cc.Value.Type().(*types.Named); ok && named.Obj().Pkg() != nil {
+			c = s.eng.db.Contracts[named.Obj().Pkg().Path()+"::("+named.Obj().Name()+")."+cc.Method.Name()]
+		}
+	} else if fn, ok := cc.Value.(*ssa.Function); ok {
+		c = s.contractFor(fn)
+	}
+	return c != nil && !c.Assumed && (len(c.Requires) > 0 || len(c.Ensures) > 0)
+}
+
+// eventNames: the ghost event names that executing fn may raise (through contracts with `option event`).
+func (e *Engine) eventNames(fn *ssa.Function, visiting map[*ssa.Function]bool) map[string]bool {
+	out := map[string]bool{}
+	if visiting[fn] {
+		return out
+	}
+	visiting[fn] = true
+	add := func(cc *ssa.CallCommon) {
+		if cc.IsInvoke() {
+			if named, ok := cc.Value.Type().(*types.Named); ok && named.Obj().Pkg() != nil {
+				if c := e.db.Contracts[named.Obj().Pkg().Path()+"::("+named.Obj().Name()+")."+cc.Method.Name()]; c != nil && c.Options["event"] != "" {
+					out[c.Options["event"]] = true
+				}
+			}
+			return
+		}
+		var callee *ssa.Function
+		switch v := cc.Value.(type) {
+		case *ssa.Function:
+			callee = v
+		case *ssa.MakeClosure:
+			callee = v.Fn.(*ssa.Function)
+		}
+		if callee == nil {
+			return
+		}
+		if callee.String() == "time.Now" {
+			out["time.Now"] = true
+			return
+		}
+		pkg := fnPkgPath(callee)
+		key := callee.String()
+		if callee.Pkg != nil {
+			key = callee.RelString(callee.Pkg.Pkg)
+		}
+		if c := e.db.Contracts[pkg+"::"+key]; c != nil && c.Options["event"] != "" {
+			out[c.Options["event"]] = true
+		}
+		if strings.HasPrefix(pkg, e.modulePath) && len(callee.Blocks) > 0 {
+			for n := range e.eventNames(callee, visiting) {
+				out[n] = true
+			}
+		}
+	}
+	for _, b := range fn.Blocks {
+		for _, in := range b.Instrs {
+			switch x := in.(type) {
+			case *ssa.Call:
+				add(&x.Call)
+			case *ssa.Defer:
+				add(&x.Call)
+			}
+		}
+	}
+	for _, af := range fn.AnonFuncs {
+		for n := range e.eventNames(af, visiting) {
+			out[n] = true
+		}
+	}
+	return out
 }
